@@ -45,3 +45,52 @@ Definition e_P01 (v : uval) : uval :=
 
 Definition e_frame_bytes (v : uval) : uval := vopt vbytes (frame_bytes (getframe v)).
 Definition e_bcc (v : uval) : uval := vN (bcc (getbytes v)).
+
+(* ---- envelope family ---- *)
+From PV Require Import Spec.Envelope Spec.C03 Spec.C04 Spec.C14.
+
+Definition getobserved (v : uval) : list (nat * outcome) :=
+  map (fun x => (getnat (arg 0 x), getoutcome (arg 1 x))) (getL v).
+
+Definition e_enc (v : uval) : uval := vbytes (enc (getframe v)).
+Definition e_classify (v : uval) : uval := voutcome (classify (getframe v)).
+Definition e_wf_frame (v : uval) : uval := vbool (wf_frame (getframe v)).
+
+(* P04: [frames; observed] *)
+Definition e_P04 (v : uval) : uval :=
+  let fs := map getframe (getL (arg 0 v)) in
+  let s := concat (map enc fs) in
+  vbool (forallb wf_frame fs && P04 fs (cut s (getobserved (arg 1 v)))).
+
+(* P14: [stream; observed] *)
+Definition e_P14 (v : uval) : uval :=
+  let s := getbytes (arg 0 v) in
+  vbool (P14 s (cut s (getobserved (arg 1 v)))).
+
+(* resynchronisation with the bound of the property text: some call delivers f and the bytes
+   consumed before that call are fewer than |noise| + 1000 + |enc f|.  [noise; frame; k; observed] *)
+Fixpoint first_delivery (f : frame) (pos : nat) (outs : list (nat * outcome)) : option nat :=
+  match outs with
+  | [] => None
+  | (n, o) :: t => if outcome_is f o then Some pos else first_delivery f (pos + n) t
+  end.
+Definition e_resync (v : uval) : uval :=
+  let noise := getbytes (arg 0 v) in
+  let f := getframe (arg 1 v) in
+  match first_delivery f 0 (getobserved (arg 3 v)) with
+  | None => vbool false
+  | Some pos => vbool (Nat.ltb pos (length noise + 1000 + length (enc f)))
+  end.
+
+(* C03: [frame; bytes produced by the implementation; observed reading of (bytes ++ rest); rest] *)
+Definition e_P03_roundtrip (v : uval) : uval :=
+  let f := getframe (arg 0 v) in
+  let bs := getbytes (arg 1 v) in
+  let obs := getobserved (arg 2 v) in
+  let rest := getbytes (arg 3 v) in
+  vbool (list_eqb N.eqb bs (enc f) &&
+         match obs with
+         | (n, o) :: _ => Nat.eqb n (length bs) && outcome_is f o
+         | [] => false
+         end).
+Definition e_frame_eqb (v : uval) : uval := vbool (frame_eqb (getframe (arg 0 v)) (getframe (arg 1 v))).
